@@ -131,6 +131,35 @@ def extra_contracts(chk):
                 chk.violation("guard:fit-without-bases-changed-something:%s" % cls.__name__,
                               dict(stop_training_was=flag, events=events))
     chk.nontriv("boundary-sizes-and-guard")
+    # one user module, several states built from it one after the other (the module is the amplitude network of
+    # each; every state's phase network is its OWN copy of the module as it is when that state is built)
+    from qucumber.nn_states import ComplexWaveFunction as CW
+    from qucumber.rbm import BinaryRBM, PurificationRBM
+    for typ, cls, mk in (("complex", CW, lambda: BinaryRBM(3, 2, gpu=False)), ("density", DensityMatrix, lambda: PurificationRBM(3, 2, 2, gpu=False))):
+        M = mk()
+        s1 = cls(3, module=M, gpu=False)
+        with torch.no_grad():
+            for p in M.parameters():
+                p.add_(1.5)                       # the user (or training of s1) moves the module
+        s2 = cls(3, module=M, gpu=False)
+        s3 = cls(3, module=M, gpu=False)
+        chk.evaluations += 1
+        det = dict(state_type=typ, scenario="s1 = T(module=M); M += 1.5; s2 = T(module=M); s3 = T(module=M)")
+        if not (s2.rbm_am is M and s3.rbm_am is M):
+            chk.violation("module-twice:%s:amplitude-network-is-not-the-module" % typ, det)
+        phs = [s1.rbm_ph, s2.rbm_ph, s3.rbm_ph]
+        if len({id(x) for x in phs} | {id(M)}) != 4 or len({p.data_ptr() for x in phs + [M] for p in x.parameters()}) != 4 * len(list(M.parameters())):
+            chk.violation("module-twice:%s:phase-networks-shared" % typ, det)
+        for name, st in (("s2", s2), ("s3", s3)):
+            if not all(torch.equal(a, b) for a, b in zip(st.rbm_ph.parameters(), M.parameters())):
+                chk.violation("module-twice:%s:phase-network-is-not-a-copy-of-the-module" % typ, dict(det, state=name))
+        before = [p.detach().clone() for p in s3.rbm_ph.parameters()]
+        with torch.no_grad():
+            for p in s2.rbm_ph.parameters():
+                p.mul_(0.0).sub_(2.0)
+        if not all(torch.equal(a, b) for a, b in zip(before, s3.rbm_ph.parameters())):
+            chk.violation("module-twice:%s:writing-one-phase-network-changed-another" % typ, det)
+    chk.nontriv("module-twice")
 
 
 def run(tier, seed):
